@@ -72,7 +72,7 @@ def c10(run):
     quick = run.tier == "quick"
     menu = cf.load_menu("menus10.json")
     scen = menu["scenarios"]
-    chosen = scen if not quick else pick(rng, scen, 22)
+    chosen = scen        # the whole menu in both tiers (about 40 s); the tiers differ in the number of fork validations
     base = scratch_root()
     points = 0
     try:
@@ -99,7 +99,7 @@ def c10(run):
             # what was served before the call
             _, root0 = cf.abstract_snapshot(u, states[0], base, pids, fmts, "init")
             objs0, metas0 = observe(u, root0, pids, fmts)
-            ns = range(len(states)) if not quick else sorted(set(pick(rng, range(len(states)), 10)) | {0, len(states) - 1})
+            ns = range(len(states))
             for n in ns:
                 if len(run.violations) >= 12:
                     break           # enough concrete counter-examples; every further point would cost watchdog time
@@ -160,6 +160,7 @@ def c10(run):
                 if a != b:
                     run.disagree("P-crash/fork", {"scenario": s["id"], "crash_before_op": n}, sorted(b), sorted(a), ["(snapshot-before-operation = state left by os._exit)"])
         run.extra["crash_points_checked"] = points
+        run.extra["exhaustive"] = len(run.violations) < 12       # every crash point of every menu scenario was run on the implementation
         run.extra["menu_scenarios"] = len(scen)
         run.extra["scenarios_run"] = len(chosen)
     finally:
@@ -193,7 +194,7 @@ def fault_scenarios(run, menu_name, theorems, only_locks=False):
     quick = run.tier == "quick"
     menu = cf.load_menu(menu_name)
     scen = menu["scenarios"]
-    chosen = scen if not quick else pick(rng, scen, 16)
+    chosen = scen if (not quick or not only_locks) else pick(rng, scen, 16)      # C13: the whole menu in both tiers; C08 samples it in quick
     # corpus first: one recorded failing point per known family always takes part
     corpus = {}
     for s_ in scen:
@@ -226,7 +227,7 @@ def fault_scenarios(run, menu_name, theorems, only_locks=False):
             im0.close()
         ks = list(range(s["sites"] + 1))
         plans = [(k, pers) for k in ks for pers in (False, True)]
-        if quick:
+        if quick and only_locks:
             plans = pick(rng, plans, 14)
         plans = [p_ for p_ in must.get(s["id"], []) if p_ not in plans] + plans
         lines = [cf.model_fault_line(setup, call, k, pers) for k, pers in plans]
@@ -322,6 +323,8 @@ def fault_scenarios(run, menu_name, theorems, only_locks=False):
             finally:
                 im.close()
     run.extra["faulted_runs"] = runs
+    if not only_locks:
+        run.extra["exhaustive"] = True                           # every fault site x mode of every menu scenario was run on the implementation
     run.extra["menu_scenarios"] = len(scen)
     run.extra["scenarios_run"] = len(chosen)
 
